@@ -121,7 +121,7 @@ def update_mode(fn):
     return raises, validates_first
 
 
-def generate(repo_root='/repo'):
+def generate(repo_root=os.environ.get('VERIF_REPO', '/repo')):
     path = os.path.join(repo_root, 'pyroll/core/config.py')
     tree = ast.parse(open(path).read())
     kinds = parse_dispatch(_find(tree, 'ConfigValue', 'parse'))
